@@ -834,3 +834,36 @@ Definition closure_clean (ss : sstate) (ri : nat) : bool :=
 (* typing condition of a history: every operation names objects that exist *)
 Definition no_bad_index (outs : list outcome) : bool :=
   forallb (fun o => match o with BadIndex => false | _ => true end) outs.
+
+(* ====================================================================================== *)
+(* histories in which data generation is interleaved with (un)registration                *)
+(* ====================================================================================== *)
+(* EGenerate o = operation.as_strategy(hooks = test dispatcher) is built and drawn from.  In the code nothing
+   about hooks is remembered between two generations: apply_hooks / apply_to_all_dispatchers / _apply_hooks read
+   the dispatchers anew on every draw.  So a generation leaves the state alone and sees the state of that moment. *)
+Inductive event := EOp (o : op) | EGenerate (o : oper).
+
+Definition all_targets : list target := [TPath; TQuery; THeaders; TCookies; TBody; TCase].
+
+(* for every EGenerate of the history, in order: the hooks applied, per target *)
+Fixpoint gen_trace (st : state) (g s : nat) (t : option nat) (evs : list event) : list (list (list (hk * N))) :=
+  match evs with
+  | [] => []
+  | EOp o :: evs' => gen_trace (fst (step st o)) g s t evs'
+  | EGenerate o :: evs' => map (fun c => generation_hooks st g s t c o) all_targets :: gen_trace st g s t evs'
+  end.
+
+(* the registration operations of a history, generations erased *)
+Fixpoint ops_of (evs : list event) : list op :=
+  match evs with
+  | [] => []
+  | EOp o :: evs' => o :: ops_of evs'
+  | EGenerate _ :: evs' => ops_of evs'
+  end.
+
+Fixpoint count_generates (evs : list event) : nat :=
+  match evs with
+  | [] => 0
+  | EOp _ :: evs' => count_generates evs'
+  | EGenerate _ :: evs' => S (count_generates evs')
+  end.
